@@ -331,7 +331,7 @@ class Observers:
         from fontTools.ttLib import TTFont
         from . import hb as HB
 
-        self.font = TTFont(io.BytesIO(data), fontNumber=index, lazy=False) if index else TTFont(io.BytesIO(data))
+        self.font = TTFont(io.BytesIO(data), fontNumber=index) if data[:4] == b"ttcf" else TTFont(io.BytesIO(data))
         self.data = data
         self.index = index
         self.order = self.font.getGlyphOrder()
@@ -435,12 +435,19 @@ def cff_side(font, name, cache):
     store = cache["store"]
     if sd["fmt"] == "cff2" and store is not None:
         vsi = sd["vsi"]
-        p = sd["p"]
-        if "vsindex" in p:
-            i = p.index("vsindex")
-            if i == 0 or not isinstance(p[i - 1], int):
-                raise Skip("computed vsindex")
-            vsi = p[i - 1]
+        # the vsindex operator may sit in the program or in a subroutine it calls (marshalling: which
+        # VarData's regions to send; T2Sem itself interprets the operator)
+        seen = set()
+        for q in [sd["p"]] + list(sd["ls"].values()) + list(sd["gs"].values()):
+            for i, tok in enumerate(q):
+                if tok == "vsindex":
+                    if i == 0 or not isinstance(q[i - 1], int):
+                        raise Skip("computed vsindex")
+                    seen.add(q[i - 1])
+        if len(seen) > 1:
+            raise Skip("several vsindex values reachable from one charstring")
+        if seen:
+            vsi = seen.pop()
         ovs = store.otVarStore
         if vsi >= len(ovs.VarData):
             raise Skip("vsindex beyond the variation store")
